@@ -294,7 +294,7 @@ def c09(tier):
         a = 0x4b6800 + h
         opts = OPTSETS[h % 4]
         g = [reset(opts), run1(df11(5, a)), run1(long_(20, enc_alt13(33000), mb17(1, 1, 1, 1), a))]
-        if h % 2:
+        if (h // 2) % 2:
             # the aircraft was on the ground a moment ago: surface position reports (with their own movement / track) came first
             ys_, xs_ = cpr_encode(50.03, 8.57, 0)
             g += [run1(df17(5, a, me_surface(rng.randint(5, 8), rng.randint(1, 124), 1, rng.getrandbits(7), 0, ys_, xs_))) for _ in range(2)]
@@ -1896,7 +1896,8 @@ def cli_pair_events(rng, n):
     binary = vlib.build_cli('release')
     wd = vlib.workdir()
     events = []
-    variants = [('O', ['--observer-coord=52.0,-8.0'], ['--observer-coord=35.7,139.7']),
+    variants = [('O', ['--observer-coord=52.25,3.92'], ['--observer-coord=-45,170']),      # on top of the traffic / on the far side of the globe
+                ('O', ['--observer-coord=52.0,-8.0'], ['--observer-coord=35.7,139.7']),
                 ('O', ['--observer-coord=-33.9,151.2'], ['--observer-coord=64.1,-21.9']),
                 ('l', [], ['-l', os.path.join(wd, 'err.log'), '-M', '17', '-M', '4']),
                 ('M', [], ['-M', '17', '-M', '20']),
@@ -2533,7 +2534,7 @@ def c19(tier):
             g += [run1(l, slot=0, tag=tag), run1(l, slot=1, tag=tag)]
         groups.append(g)
     conform(rep, 'C19', groups, maxlen=3000)
-    evs = cli_pair_events(rng, 6 if tier == 'quick' else 120)
+    evs = cli_pair_events(rng, 7 if tier == 'quick' else 140)
     trc = os.path.join(vlib.workdir(), 'c19cli.trace.ndjson')
     vlib.write_ndjson(trc, evs)
     rep.add_validation(vlib.validate([trc], 'C19'), key_fn=lambda e: (e['opt'], tuple(map(tuple, e['lines'][:5]))))
